@@ -3,6 +3,7 @@ recording what psutil did (return values, exceptions, sink events) next to the m
 
 Used by C01 (signals/setters vs PID reuse), C02 (identity), C04 (listing/cache).
 """
+import os
 import signal
 
 from . import vkernel
@@ -96,6 +97,9 @@ class World:
             return ("exc:" + type(e).__name__, str(e)[:200])
 
     # -- ops ---------------------------------------------------------------------------
+    fault_fired_tick = None
+    fault_armed = None
+
     def apply(self, op):
         """Apply one op. Returns the record (also appended to self.records)."""
         self.tick += 1
@@ -234,6 +238,22 @@ class World:
             rec["res"] = self._call(fn)
             rec["model_alive"] = self.alive(h)
             rec["model_owner"] = self.cur_inc(h.pid)
+        elif kind == "fault":         # ("fault", "EMFILE"): the next open of a /proc/<pid>/stat file fails once with that errno
+            import errno as _errno
+            import re as _re
+            code = getattr(_errno, op[1])
+            armed = [True]
+
+            def rule(k, path, armed=armed, code=code):
+                if armed[0] and k == "open" and _re.match(r"^/vproc/\d+/stat$", path):
+                    armed[0] = False
+                    self.fault_fired_tick = self.tick
+                    return OSError(code, os.strerror(code), path)
+                return None
+            self.vk.rules.append(rule)
+            if self.fault_armed and self.fault_armed[0]:
+                self.fault_armed[0] = False         # one transient failure at a time
+            self.fault_armed = armed
         elif kind == "wait":          # ("wait", h[, "procs"]) : wait(timeout=0) / wait_procs([obj], timeout=0) on the object
             h = self.handles[op[1]]
             if len(op) > 2 and op[2] == "procs":
